@@ -9,6 +9,7 @@ INVARIANT InPlaceViews
 INVARIANT Correct
 INVARIANT ShapesCover
 INVARIANT NumericOK
+INVARIANT ValueSemanticsOK
 INVARIANT ShapesAdvertised
 POSTCONDITION Accepted
 CHECK_DEADLOCK FALSE
